@@ -13,7 +13,7 @@ import (
 
 func init() {
 	families["C16"] = famC16
-	rules["C16"] = "JSON values (objects/arrays nested up to depth 6, empty containers, duplicate/odd/empty/unicode keys, scalars of every type at top level and inside, several concatenated top-level values) rendered with random whitespace, escapes and number spellings; " +
+	rules["C16"] = "JSON values (objects/arrays nested up to depth 6 and, in one case of sixty, chains of depth 7-70 with a member after every container-valued member, empty containers, duplicate/odd/empty/unicode keys, scalars of every type at top level and inside, several concatenated top-level values) rendered with random whitespace, escapes and number spellings; " +
 		"(a) xsel.ReadJson tree vs the README mapping computed by the model from the VALUE, (b) vs the adapter model run on the token stream recorded from encoding/json on the same bytes (the oracle assumption tokens = toks(value) is measured), " +
 		"(c) truncations at every kind of boundary and byte mutations: error/non-error and tree must equal the adapter model on the recorded tokens; non-trivial: a container with at least one nested container or 3 members; distinct by text"
 	replayers["json"] = func(rn *Runner, rp *Replay) (string, string, bool) {
@@ -239,6 +239,18 @@ func jsonCase(rn *Runner, text string) (impl, model string) {
 	return impl, model
 }
 
+// deepJ: containers nested to the given depth; at every level the container-valued member is followed by another member
+func deepJ(r *Rng, depth int) *JVal {
+	if depth <= 0 {
+		return &JVal{Kind: "num", S: pick(r, jsonNums)}
+	}
+	inner := deepJ(r, depth-1)
+	if r.Chance(1, 3) {
+		return &JVal{Kind: "arr", Items: []*JVal{inner, {Kind: "str", S: "after"}}}
+	}
+	return &JVal{Kind: "obj", Keys: []string{"k", "z"}, Members: []*JVal{inner, {Kind: "num", S: "2"}}}
+}
+
 func famC16(rn *Runner) {
 	n := rn.Scale(1500, 30000)
 	for i := 0; i < n && !rn.TooMany(); i++ {
@@ -254,6 +266,10 @@ func famC16(rn *Runner) {
 		budget := rn.Scale(40, 150)
 		for k := 0; k < nv; k++ {
 			vals = append(vals, genJVal(r, 1+r.Intn(6), &budget))
+		}
+		if i%60 == 7 {
+			// nesting beyond the initial capacity of any stack (8, 16, 32, 64 and their neighbours)
+			vals = []*JVal{deepJ(r, pick(r, []int{7, 8, 9, 15, 16, 17, 31, 32, 33, 63, 64, 65, 70}))}
 		}
 		var b strings.Builder
 		var sx, want []string
